@@ -159,6 +159,16 @@ pub fn fault_reset(fail_at: Option<usize>) {
     SIGN_CALLS.with(|c| c.set(0));
     FAIL_AT.with(|c| c.set(fail_at.unwrap_or(0)));
 }
+/// Run `f` with fault injection and call counting suspended (harness-internal signing that is not part
+/// of the history under test).
+pub fn fault_suspended<T>(f: impl FnOnce() -> T) -> T {
+    let (n, at) = (SIGN_CALLS.with(|c| c.get()), FAIL_AT.with(|c| c.get()));
+    FAIL_AT.with(|c| c.set(0));
+    let r = f();
+    SIGN_CALLS.with(|c| c.set(n));
+    FAIL_AT.with(|c| c.set(at));
+    r
+}
 pub fn fault_sign_calls() -> usize {
     SIGN_CALLS.with(|c| c.get())
 }
